@@ -165,18 +165,26 @@ def check_case(ctx, case):
             continue
         ctx.count("permutations_judged")
         fam = case["cfg"]["family"]
+
+        def report(kind, text):
+            div = oracles.first_lattice_divergence(mt, mt2)
+            mech = oracles.order_dependence_mechanism(case["cfg"], div)
+            text += f" | first lattice divergence: {div}"
+            if mech:
+                ctx.violation(f"C10:permutation:order-dependent:{mech}", {"base": case, "permuted": pc}, f"{kind}: {text}")
+            else:
+                ctx.violation(f"C10:permutation:{kind}:{fam}", {"base": case, "permuted": pc}, text)
         if c["empty"] != c2["empty"] or c["idx"] != c2["idx"]:
-            ctx.violation(f"C10:permutation:index-differs:{fam}", {"base": case, "permuted": pc}, f"idx {c['idx']} vs {c2['idx']}")
+            report("index-differs", f"idx {c['idx']} vs {c2['idx']}")
         elif not c["empty"]:
             if abs(c["best"] - c2["best"]) > 1e-9 * max(1.0, abs(c["best"])):
-                ctx.violation(f"C10:permutation:best-probability-differs:{fam}", {"base": case, "permuted": pc}, f"{c['best']!r} vs {c2['best']!r}")
+                report("best-probability-differs", f"{c['best']!r} vs {c2['best']!r}")
             elif [k for k, _ in c["path"]] != [k for k, _ in c2["path"]]:
                 p1, p2 = c["path"][-1][1], c2["path"][-1][1]
                 if oracles.tie_induced(c["path"], c2["path"]):
                     ctx.count("permutation_paths_differ_exact_tie")
                 else:
-                    ctx.violation(f"C10:permutation:path-differs-without-tie:{fam}", {"base": case, "permuted": pc},
-                                  f"{c['path'][-1]} vs {c2['path'][-1]}")
+                    report("path-differs-without-tie", f"{c['path'][-1]} vs {c2['path'][-1]}")
     ctx.sample(case)
 
 
